@@ -50,6 +50,9 @@ func (m *UpdateSpendingPoolProposal) VotePermission() types.PermValue {
 
 // ValidateBasic returns basic validation
 func (m *UpdateSpendingPoolProposal) ValidateBasic() error {
+	if m.VoteQuorum.IsNil() || m.VoteQuorum.IsNegative() || m.VoteQuorum.GT(sdk.OneDec()) {
+		return ErrInvalidVoteQuorum
+	}
 	return nil
 }
 
